@@ -339,6 +339,7 @@ func (x *Exec) freshResults(st *State, sig *types.Signature, prefix string) Valu
 func (x *Exec) havocReachable(st *State, args []Value) {
 	reach := false
 	for _, a := range args {
+		st.markEscaped(a)
 		switch v := a.(type) {
 		case SliceV, PtrV, FuncV:
 			reach = true
@@ -692,6 +693,9 @@ func (x *Exec) callContract(st *State, ins ssa.Instruction, fc *FuncContract, ca
 		st.Assume(g)
 	}
 	// havoc the frame; monitor objects reachable through the arguments see interference
+	for _, a := range args {
+		st.markEscaped(a) // a local whose address is passed may be assigned by any callee that modifies "*"
+	}
 	x.applyModifies(st, env, fc, args)
 	for i, a := range args {
 		if i < len(ptypes) {
